@@ -1,7 +1,6 @@
 package values
 
 import (
-	"fmt"
 	"math"
 	"reflect"
 	"strings"
@@ -252,7 +251,7 @@ func (mv mapValue) PropertyValue(iv Value) Value {
 func (sv stringValue) Contains(substr Value) bool {
 	s, ok := substr.Interface().(string)
 	if !ok {
-		s = fmt.Sprint(substr.Interface())
+		s = Sprint(substr.Interface())
 	}
 	// (the value may be of a named string type)
 	return strings.Contains(reflect.ValueOf(sv.value).String(), s)
